@@ -1,6 +1,7 @@
 // Applications under test: the six configurations of the property and the two routes
 // (/all = every read accessor and request parser; /h/:helper = response helpers fed with an
-// attacker string).
+// attacker string) behind a pass-through root middleware. The applications of family 4 (route
+// registration shapes) are in shapes.go.
 package main
 
 import (
@@ -72,6 +73,8 @@ type probePanic struct {
 
 type appState struct {
 	ran     int // handler executions
+	mwRan   int // family 4: middleware executions
+	epRan   int // family 4: endpoint executions
 	ehCalls int // error-handler executions
 	ehCode  int // code the error handler answered with (last)
 	panics  []probePanic
@@ -88,6 +91,7 @@ type appState struct {
 
 func (s *appState) reset() {
 	s.ran, s.ehCalls, s.ehCode = 0, 0, 0
+	s.mwRan, s.epRan = 0, 0
 	s.panics = s.panics[:0]
 	s.rangeCls, s.fresh, s.flashN, s.bodyCls = "", false, 0, ""
 }
@@ -186,6 +190,9 @@ func buildApp(c *cfgT, st *appState) *fiber.App {
 		})
 	}
 	all := func(ctx fiber.Ctx) error { return allHandler(ctx, st) }
+	// a pass-through global middleware, as nearly every real application has one (logger, recover,
+	// cors ...): every request of every family also goes through the router's root-middleware branch
+	app.Use(func(ctx fiber.Ctx) error { return ctx.Next() })
 	app.All("/all", all)
 	app.All("/p/:id/*", all)
 	app.Get("/named/:x", func(ctx fiber.Ctx) error { return ctx.SendString("named") }).Name("named")
